@@ -146,6 +146,8 @@ int main(int argc, char **argv) {
     unsigned long programs = 0, visible = 0, dependent_programs = 0, wrong_output = 0, maxcells = 0;
     unsigned char seed[32];
     int only_i = -1, only_j = -1, triples = 0;
+    int shard_k = 0, shard_n = 1;      /* SCHED_SHARD=k/n: this process runs the programs whose index is k mod n */
+    if (getenv("SCHED_SHARD")) { if (sscanf(getenv("SCHED_SHARD"), "%d/%d", &shard_k, &shard_n) != 2 || shard_n < 1) { shard_k = 0; shard_n = 1; } }
     if (argc > 1) nthreads = atoi(argv[1]);
     if (argc > 2) triples = atoi(argv[2]);
     if (argc > 4) { only_i = atoi(argv[3]); only_j = atoi(argv[4]); }
@@ -179,6 +181,7 @@ int main(int argc, char **argv) {
         for (i = 0; i < VERIF_N_OPS; i++) for (j = 0; j < VERIF_N_OPS; j++) {
             uintptr_t addrs[8]; int kinds[8]; size_t c12, c21; int ops[2];
             if (only_i >= 0 && (i != only_i || j != only_j)) continue;
+            if (only_i < 0 && (i * VERIF_N_OPS + j) % shard_n != shard_k) continue;
             ops[0] = i; ops[1] = j;
             sched_reset(); sched_private_clear();
             for (k = 0; k < 2; k++) {
@@ -207,6 +210,7 @@ int main(int argc, char **argv) {
         /* triples: op i fixed per argument `triples` count: (i, (i*7+3)%N, (i*11+5)%N) for i in range(triples) */
         for (i = 0; i < triples; i++) {
             int ops[3]; uintptr_t addrs[8]; int kinds[8]; size_t c = 0; int a, b;
+            if (i % shard_n != shard_k) continue;
             ops[0] = i % VERIF_N_OPS; ops[1] = (i * 7 + 3) % VERIF_N_OPS; ops[2] = (i * 11 + 5 + i / VERIF_N_OPS) % VERIF_N_OPS;
             sched_reset(); sched_private_clear();
             for (k = 0; k < 3; k++) {
